@@ -16,7 +16,7 @@ Record obs := mkObs { raised : bool; state : coll }.
 Record case := mk { c0 : coll; ops : list op; trace : list obs }.
 
 Definition member_eqb (a b : member) : bool :=
-  (mkey a =? mkey b) && list_eqb Z.eqb (mshape a) (mshape b) && list_eqb Z.eqb (mal a) (mal b).
+  (mkey a =? mkey b) && list_eqb Z.eqb (mshape a) (mshape b) && list_eqb Z.eqb (mal a) (mal b) && Bool.eqb (mseq a) (mseq b).
 Definition coll_eqb (a b : coll) : bool :=
   list_eqb member_eqb (members a) (members b) && Bool.eqb (aligned a) (aligned b).
 
